@@ -1075,6 +1075,8 @@ class World(object):
                 self.report("C09", "paused_when_drained", "workflow paused with %d action(s) in flight" % nin)
         if st in ("pausing", "canceling") and not nin:
             kf, tags = self.kf_rerun_after_cancel()
+            if not kf:
+                kf, tags = self.kf_pending_items()
             self.report("C02", "ing_has_inflight", "workflow %s with no action in flight" % st, tags=tags, kf=kf)
             if st == "canceling":
                 self.report("C10", "canceled_when_drained", "workflow still canceling after the last action reported")
@@ -1142,8 +1144,23 @@ class World(object):
             return "KF-rerun-after-cancel-recancels", ["rerun_after_cancel"]
         return None, []
 
+    def kf_pending_items(self):
+        """Precise signature: the workflow is pausing because a task reported pending (no pause
+        request reached the tasks), nothing is in flight, and a with-items task that still has
+        items to offer sits in `running`: it is counted as active although it cannot progress."""
+        if self.status == "pausing" and not self.inflight and self.pending and not self.pause_req:
+            for x in self.ledger.execs:
+                it = x.items
+                if it is not None and x.state == "running" and not it["inflight"] and it.get("n") \
+                        and len(it["offered"]) < it["n"]:
+                    return "KF-pending-task-leaves-items-task-running", ["pending_with_items_window"]
+        return None, []
+
     def classify_stuck(self):
         kf, tags = self.kf_rerun_after_cancel()
+        if kf:
+            return kf, tags
+        kf, tags = self.kf_pending_items()
         if kf:
             return kf, tags
         if self.accepted_rerun and self.status in ("resuming", "running") and self.rerun_offers_since == 0 and not self.inflight:
